@@ -43,6 +43,19 @@ KIND_CLS = {"rydberg": Rydberg, "raman": Raman, "microwave": Microwave}
 KIND_BASIS = {"rydberg": "ground-rydberg", "raman": "digital", "microwave": "XY", "dmm": "ground-rydberg"}
 
 
+def doc_rise_time(obj) -> int:
+    """Documented rise time: int(0.48 / mod_bandwidth[MHz] * 1e3) ns, 0 without a bandwidth
+    (recomputed from the public attribute, not read from the property under test)."""
+    bw = getattr(obj, "mod_bandwidth", None)
+    return int(0.48 / bw * 1e3) if bw else 0
+
+
+def doc_phase_jump_time(obj) -> int:
+    """Documented phase-jump time: the custom value when one is given, else twice the rise time."""
+    c = getattr(obj, "custom_phase_jump_time", None)
+    return int(2 * doc_rise_time(obj) if c is None else c)
+
+
 def make_eom(e: dict) -> RydbergEOM:
     beams = {"BLUE": RydbergBeam.BLUE, "RED": RydbergBeam.RED}
     return RydbergEOM(
@@ -126,7 +139,10 @@ class Dev:
     def cfg_wire(self, obj, is_dmm: bool) -> str:
         eom = getattr(obj, "eom_config", None) if not is_dmm else None
         if eom is not None:
-            e = [str(eom.rise_time), str(obj._eom_buffer_time), str(int(bool(eom.custom_buffer_time)))]
+            # (the buffer length is recomputed from the public attributes, not read from the
+            # private Channel._eom_buffer_time)
+            e = [str(doc_rise_time(eom)), str(int(eom.custom_buffer_time or 2 * doc_rise_time(obj))),
+                 str(int(bool(eom.custom_buffer_time)))]
         else:
             e = ["-", "-", "-"]
         local = obj.addressing == "Local"
@@ -137,8 +153,8 @@ class Dev:
             str(obj.clock_period),
             str(obj.min_duration),
             opt(obj.max_duration),
-            str(obj.rise_time),
-            str(obj.phase_jump_time),
+            str(doc_rise_time(obj)),
+            str(doc_phase_jump_time(obj)),
             str(obj.min_retarget_interval or 0) if local else "0",
             str(obj.fixed_retarget_t or 0) if local else "0",
             opt(obj.max_targets) if local else "-",
